@@ -1,8 +1,158 @@
-(* C19 — JSON.parse / JSON.stringify conform to the JSON grammar and round-trip.
-   ONLY theorem statements; each is closed by [exact] of a lemma of C19/Proofs.v. *)
+(* C19 — JSON.parse and JSON.stringify conform to the JSON grammar and round-trip.
+   ONLY theorem statements; each is closed by [exact] of a lemma of C19/Proofs*.v.
+   Texts are lists of UTF-16 code units; [Derives] is the ECMA-404 / ECMA-262 JSON grammar written as an
+   inductive relation (coq/C19/Model.v), [parse] the model's JSON.parse (None = SyntaxError), [print_g] /
+   [print] / [quote_body] the model's SerializeJSON* / QuoteJSONString on JSON values. *)
 From Coq Require Import List NArith ZArith Bool.
 Import ListNotations.
 From Verif.C19 Require Import Model Proofs.
-Theorem parse_example : parse [91; 49; 93]%N = Some (JArr [JNum false [49%N] [] None]).
-Proof. exact Proofs.parse_example. Qed.
-Print Assumptions parse_example.
+Local Open Scope N_scope.
+
+(* 1. parse accepts EXACTLY the grammar, for every text (white space in every position included):
+      whatever it returns is derivable, and every derivable text is accepted with that value. *)
+Theorem parse_sound : forall t v, parse t = Some v -> Derives v t.
+Proof. exact Proofs.parse_sound. Qed.
+
+Theorem parse_complete : forall t v, Derives v t -> parse t = Some v.
+Proof. exact Proofs.parse_complete. Qed.
+
+Theorem parse_iff_derives : forall t v, parse t = Some v <-> Derives v t.
+Proof. exact Proofs.parse_iff_derives. Qed.
+
+(* every text outside the grammar is rejected (SyntaxError) *)
+Theorem parse_rejects : forall t, (forall v, ~ Derives v t) -> parse t = None.
+Proof. exact Proofs.parse_rejects. Qed.
+
+(* a text denotes at most one value *)
+Theorem derives_functional : forall t v1 v2, Derives v1 t -> Derives v2 t -> v1 = v2.
+Proof. exact Proofs.derives_functional. Qed.
+
+Example parse_sound_nonvacuous :
+  parse [32; 123; 34; 97; 34; 58; 91; 49; 44; 32; 45; 48; 46; 53; 101; 43; 50; 93; 125; 10]
+  = Some (JObj [([97], JArr [JNum false [49] [] None; JNum true [48] [53] (Some (false, [50]))])]).
+Proof. vm_compute. reflexivity. Qed.
+
+Example parse_rejects_trailing_comma : parse [91; 49; 44; 93] = None.        (* [1,] *)
+Proof. vm_compute. reflexivity. Qed.
+Example parse_rejects_leading_zero : parse [48; 49] = None.                   (* 01 *)
+Proof. vm_compute. reflexivity. Qed.
+Example parse_rejects_vtab : parse [11; 49] = None.                           (* \v1 *)
+Proof. vm_compute. reflexivity. Qed.
+
+(* 2. round trip: the serialiser's text (with any white-space gap, or none) parses back to the same value,
+      for every JSON value whose numbers are lexically legal *)
+Theorem parse_print_gap_roundtrip : forall v gap, wf_json v = true -> ws gap ->
+  parse (print_g gap [] v) = Some v.
+Proof. exact Proofs.parse_print_gap_roundtrip. Qed.
+
+Theorem parse_print_roundtrip : forall v, wf_json v = true -> parse (print v) = Some v.
+Proof. exact Proofs.parse_print_roundtrip. Qed.
+
+(* the printed text is itself in the grammar *)
+Theorem print_derives : forall v gap, wf_json v = true -> ws gap -> Derives v (print_g gap [] v).
+Proof. exact Proofs.print_g_derives_text. Qed.
+
+(* 3. canonical form: stringify(parse t) re-parses to parse t, printing is idempotent through parse, and two
+      accepted texts have the same canonical form iff they denote the same value *)
+Theorem print_parse_canonical : forall t v, parse t = Some v -> parse (print v) = Some v.
+Proof. exact Proofs.print_parse_canonical. Qed.
+
+Theorem print_idempotent : forall v, wf_json v = true ->
+  option_map print (parse (print v)) = Some (print v).
+Proof. exact Proofs.print_idempotent. Qed.
+
+Theorem canonical_form_decides : forall t1 t2 v1 v2, parse t1 = Some v1 -> parse t2 = Some v2 ->
+  (print v1 = print v2 <-> v1 = v2).
+Proof. exact Proofs.canonical_form_decides. Qed.
+
+(* every value the parser returns is well formed, so 2 and 3 apply to it *)
+Theorem derives_wf : forall v t, Derives v t -> wf_json v = true.
+Proof. exact Proofs.derives_wf. Qed.
+
+Example roundtrip_nonvacuous :
+  let v := JObj [([34; 55296], JArr [JStr [10; 56320; 55357; 56832]; JNull; JArr []; JObj []])] in
+  wf_json v = true /\ parse (print_g [32; 32] [] v) = Some v /\
+  print v = [123; 34; 92; 34; 92; 117; 100; 56; 48; 48; 34; 58; 91; 34; 92; 110; 92; 117; 100; 99; 48; 48;
+             55357; 56832; 34; 44; 110; 117; 108; 108; 44; 91; 93; 44; 123; 125; 93; 125].
+Proof. vm_compute. repeat split; reflexivity. Qed.
+
+(* 4. QuoteJSONString: for EVERY list of code units (lone surrogates included) the quoted text lexes back to
+      the same list, contains no raw control character, and is well-formed UTF-16 *)
+Theorem quote_roundtrip : forall s r, parse_chars (quote_body s ++ 34 :: r) = Some (s, r).
+Proof. exact Proofs.quote_roundtrip. Qed.
+
+Theorem quote_safe : forall s, Forall (fun x => 32 <= x) (quote_body s).
+Proof. exact Proofs.quote_safe. Qed.
+
+Theorem quote_wellformed : forall s, wf_utf16 (quote_body s) = true.
+Proof. exact Proofs.quote_wellformed. Qed.
+
+Example quote_nonvacuous :
+  quote_body [34; 92; 8; 31; 55296; 97; 55357; 56832; 57343]
+  = [92; 34; 92; 92; 92; 98; 92; 117; 48; 48; 49; 102; 92; 117; 100; 56; 48; 48; 97; 55357; 56832;
+     92; 117; 100; 102; 102; 102].
+Proof. vm_compute. reflexivity. Qed.
+
+(* 5. The model of JSON.stringify itself (SerializeJSONProperty / Object / Array over JS values, the function that
+      is compared with goja on every run): on JSON-shaped values (null, booleans, modelled numbers, strings, arrays,
+      objects with ANY keys in ANY creation order incl. duplicates and integer-like keys) and without replacer it
+      writes exactly the canonical text of the denoted JSON value, with the gap of any space argument; hence
+      JSON.parse(JSON.stringify(v, undefined, space)) is that value whenever the gap is white space (always for a
+      numeric space). *)
+Theorem stringify_json_shaped : forall v space, json_shaped v = true ->
+  stringify v RNone space = SText (print_g (gap_of space) [] (to_json v)).
+Proof. exact Proofs.stringify_json_shaped. Qed.
+
+Theorem stringify_parse_roundtrip : forall v space, json_shaped v = true ->
+  wf_json (to_json v) = true -> ws (gap_of space) ->
+  exists t, stringify v RNone space = SText t /\ parse t = Some (to_json v).
+Proof. exact Proofs.stringify_parse_roundtrip. Qed.
+
+Theorem gap_of_number_ws : forall n, ws (gap_of (VNum n)).
+Proof. exact Proofs.gap_of_number_ws. Qed.
+
+(* Object.MarshalJSON (stringify without replacer and gap, undefined written as null) agrees with JSON.stringify
+   wherever JSON.stringify yields a text or throws *)
+Theorem marshal_agrees : forall sb v, stringify_g sb v RNone VUndef <> SUndef ->
+  marshal_g sb v = stringify_g sb v RNone VUndef.
+Proof. exact Proofs.marshal_agrees. Qed.
+
+Example stringify_nonvacuous :
+  let v := VObj [([98], VNum (NQ 6)); ([49], VArr [VNull; VStr [34]; VArr []]); ([98], VBool true)] in
+  json_shaped v = true /\ wf_json (to_json v) = true /\
+  to_json v = JObj [([49], JArr [JNull; JStr [34]; JArr []]); ([98], JBool true)] /\
+  stringify v RNone (VNum (NQ 4)) =
+    SText [123; 10; 32; 34; 49; 34; 58; 32; 91; 10; 32; 32; 110; 117; 108; 108; 44; 10; 32; 32; 34; 92; 34; 34; 44;
+           10; 32; 32; 91; 93; 10; 32; 93; 44; 10; 32; 34; 98; 34; 58; 32; 116; 114; 117; 101; 10; 125].
+Proof. vm_compute. repeat split; reflexivity. Qed.
+
+(* Recorded findings, on the model side.  F-C19-4: reading a Symbol wrapper object as undefined (what goja does)
+   differs from the specification.  F13: the grammar derives 1e400, so JSON.parse must accept it (goja throws). *)
+Theorem symbol_wrapper_refuted : exists v, stringify_g true v RNone VUndef <> stringify v RNone VUndef.
+Proof. exact Proofs.symbol_wrapper_refuted. Qed.
+
+Example parse_accepts_1e400 :
+  parse [49; 101; 52; 48; 48] = Some (JNum false [49] [] (Some (false, [52; 48; 48]))) /\
+  to_js (JNum false [49] [] (Some (false, [52; 48; 48]))) = PNum false 1 400.
+Proof. vm_compute. split; reflexivity. Qed.
+
+Print Assumptions parse_sound.
+Print Assumptions parse_complete.
+Print Assumptions parse_iff_derives.
+Print Assumptions parse_rejects.
+Print Assumptions derives_functional.
+Print Assumptions parse_print_gap_roundtrip.
+Print Assumptions parse_print_roundtrip.
+Print Assumptions print_derives.
+Print Assumptions print_parse_canonical.
+Print Assumptions print_idempotent.
+Print Assumptions canonical_form_decides.
+Print Assumptions derives_wf.
+Print Assumptions quote_roundtrip.
+Print Assumptions quote_safe.
+Print Assumptions quote_wellformed.
+Print Assumptions stringify_json_shaped.
+Print Assumptions stringify_parse_roundtrip.
+Print Assumptions gap_of_number_ws.
+Print Assumptions marshal_agrees.
+Print Assumptions symbol_wrapper_refuted.
